@@ -28,6 +28,7 @@ pub async fn load_row_id_sequence(
             let data = data.clone();
             let key = RowIdSequenceKey {
                 fragment_id: fragment.id,
+                fingerprint: RowIdSequenceKey::fingerprint_of(&[data.as_ref()]),
             };
             dataset
                 .metadata_cache
@@ -39,6 +40,11 @@ pub async fn load_row_id_sequence(
             let dataset_clone = dataset.clone();
             let key = RowIdSequenceKey {
                 fragment_id: fragment.id,
+                fingerprint: RowIdSequenceKey::fingerprint_of(&[
+                    file_slice.path.as_bytes(),
+                    &file_slice.offset.to_le_bytes(),
+                    &file_slice.size.to_le_bytes(),
+                ]),
             };
             dataset
                 .metadata_cache
